@@ -31,6 +31,10 @@ pub struct Case {
     pub focus: u16,
     pub impact_action: String,
     pub with_loop: bool,
+    /// when set: the rule whose impact is computed is a further edit (same id, other content) of the focus rule,
+    /// carrying the examples of both versions (a draft edited again)
+    #[serde(default, skip_serializing_if = "Option::is_none")]
+    pub edit: Option<RuleSpec>,
 }
 
 const PATHS: &[&str] = &["/a", "/b", "/c", "/d", "/e"];
@@ -295,6 +299,21 @@ pub fn check(case: &Case) -> Outcome {
         }
         // impact of adding / updating / deleting the focus rule
         out.evals += 1;
+        let edited: RuleSpec;
+        let focus = match &case.edit {
+            Some(e) => {
+                let mut e = e.clone();
+                e.id = focus.id.clone();
+                e.target_hash = Some(format!("{}-v3", focus.id));
+                let mut exs = e.examples.clone().unwrap_or_default();
+                exs.extend(focus.examples.clone().unwrap_or_default());
+                e.examples = Some(exs);
+                edited = e;
+                out.class("impact-of-an-edited-version");
+                &edited
+            }
+            None => focus,
+        };
         let rule_json = serde_json::to_value(focus).unwrap();
         let p: ImpactProjectInput = serde_json::from_value(json!({"max_hops": case.max_hops, "with_redirection_loop": case.with_loop, "domains": case.domains, "rule": rule_json, "action": case.impact_action, "change_set": cs})).unwrap();
         let s: ImpactInput = serde_json::from_value(json!({"router_config": cfg_json, "max_hops": case.max_hops, "with_redirection_loop": case.with_loop, "domains": case.domains, "rule": rule_json, "action": case.impact_action, "rules": shuffled_rules})).unwrap();
@@ -489,9 +508,10 @@ pub fn strategy() -> BoxedStrategy<Case> {
         prop::collection::vec(body_strategy(), 0..=3),
         prop::collection::vec((any::<u16>(), body_strategy()), 0..=3),
         prop::collection::vec(any::<u16>(), 0..=3),
-        (0u8..7, pick(vec![vec![], vec!["example.com".to_string()], vec!["example.com".to_string(), "example.org".to_string()]]), prop::collection::vec(any::<u16>(), 14), any::<u16>(), pick(vec!["add", "update", "delete"]), any::<bool>()),
+        (0u8..7, pick(vec![vec![], vec!["example.com".to_string()], vec!["example.com".to_string(), "example.org".to_string()]]), prop::collection::vec(any::<u16>(), 14), any::<u16>(), pick(vec!["add", "update", "delete"]), any::<bool>(), prop::option::weighted(0.4, body_strategy())),
     )
-        .prop_map(|(config, base, added, updated, deleted, (max_hops, domains, shuffle, focus, impact_action, with_loop))| {
+        .prop_map(|(config, base, added, updated, deleted, (max_hops, domains, shuffle, focus, impact_action, with_loop, edit))| {
+            let edit = edit.map(|b| make_rule("edited", "v3", &b));
             let base: Vec<RuleSpec> = base.iter().enumerate().map(|(i, b)| make_rule(&format!("b{i}"), "v1", b)).collect();
             let added: Vec<RuleSpec> = added.iter().enumerate().map(|(i, b)| make_rule(&format!("n{i}"), "v1", b)).collect();
             let mut seen = BTreeSet::new();
@@ -507,7 +527,7 @@ pub fn strategy() -> BoxedStrategy<Case> {
             deleted.dedup();
             // a rule is either updated or deleted (consistent change-sets)
             deleted.retain(|d| !updated.iter().any(|u| u.id == *d));
-            Case { config, base, added, updated, deleted, max_hops, domains, shuffle, focus, impact_action: impact_action.to_string(), with_loop }
+            Case { config, base, added, updated, deleted, max_hops, domains, shuffle, focus, impact_action: impact_action.to_string(), with_loop, edit }
         })
         .boxed()
 }
